@@ -369,6 +369,49 @@ type SubElem struct {
 	Tok int    `json:"tok"`
 	K   int    `json:"k"`
 	Pad string `json:"pad,omitempty"`
+	// optional parts, present for some elements only (a function of k): an element
+	// must never show content of an earlier or later one
+	Opt  *int           `json:"opt,omitempty"`
+	Tags []int          `json:"tags,omitempty"`
+	M    map[string]int `json:"m,omitempty"`
+}
+
+// FillOptional sets the optional parts element k of stream tok carries.
+func (el *SubElem) FillOptional() {
+	tok, k := el.Tok, el.K
+	if k%3 == 1 {
+		v := tok*1000 + k
+		el.Opt = &v
+	}
+	for i := 0; i < k%4; i++ {
+		el.Tags = append(el.Tags, k+i)
+	}
+	if k%5 == 2 {
+		el.M = map[string]int{"a": k, "k" + strconv.Itoa(k%3): tok}
+	}
+}
+
+// OptionalOK reports whether the optional parts are exactly those FillOptional sets.
+func (el SubElem) OptionalOK() bool {
+	want := SubElem{Tok: el.Tok, K: el.K}
+	want.FillOptional()
+	if (el.Opt == nil) != (want.Opt == nil) || el.Opt != nil && *el.Opt != *want.Opt {
+		return false
+	}
+	if len(el.Tags) != len(want.Tags) || len(el.M) != len(want.M) {
+		return false
+	}
+	for i := range el.Tags {
+		if el.Tags[i] != want.Tags[i] {
+			return false
+		}
+	}
+	for k, v := range want.M {
+		if g, ok := el.M[k]; !ok || g != v {
+			return false
+		}
+	}
+	return true
 }
 
 // SubT is Sub with a struct element type and variable element size.
@@ -387,6 +430,7 @@ func (a *API) SubT(ctx context.Context, tok int) (<-chan SubElem, error) {
 			if t.Size > 0 {
 				el.Pad = Result(v, t.Size)
 			}
+			el.FillOptional()
 			select {
 			case out <- el:
 			case <-ctx.Done():
